@@ -470,6 +470,28 @@ pub fn finish(mut v: Verdict) -> Verdict {
     v
 }
 
+/// Wraps a scenario so that its raw peers announce an empty identity (1) or none (2) instead of the ones the scenario
+/// gives them (job parameter `"peers_anon"`).
+pub fn with_anon_peers(mode: u8, scenario: explore::Scenario) -> explore::Scenario {
+    if mode == 0 {
+        return scenario;
+    }
+    Arc::new(move || {
+        rc::set_identity_mode(mode);
+        let r = scenario();
+        rc::set_identity_mode(0);
+        r
+    })
+}
+
+/// A copy of `j` whose peers announce an empty identity / none. Only for scenarios whose oracle does not look at
+/// the peers' identities.
+pub fn anon_copy(j: &Job, mode: u8) -> Job {
+    let mut params = j.params.clone();
+    params["peers_anon"] = serde_json::json!(mode);
+    Job { name: format!("{}/peers-anon{}", j.name, mode), params, scenario: with_anon_peers(mode, j.scenario.clone()), bound: j.bound, max_execs: j.max_execs, initial: j.initial.clone(), on_blocked: j.on_blocked.clone() }
+}
+
 pub fn job(
     name: String,
     params: serde_json::Value,
@@ -478,10 +500,11 @@ pub fn job(
     scenario: impl Fn() -> Verdict + Send + Sync + 'static,
 ) -> Job {
     let variant = params["peer_variant"].as_u64().unwrap_or(0) as usize;
+    let anon_mode = params["peers_anon"].as_u64().unwrap_or(0) as u8;
     Job {
         name,
         params,
-        scenario: with_peer_variant(variant, Arc::new(scenario)),
+        scenario: with_anon_peers(anon_mode, with_peer_variant(variant, Arc::new(scenario))),
         bound,
         max_execs,
         initial: Vec::new(),
